@@ -26,6 +26,7 @@ type Target struct {
 	Requires bool     // requires = ["lang"]
 	PostAdd  [][2]int // post_build function: add_dep(target [0], dependency [1]) once this target is built
 	Touch    bool     // warm cases: the command (and its output) changes in the second invocation, so it is rebuilt
+	BigOut   bool     // warm cases: the first invocation leaves a directory of many files as this target's output (slow to remove)
 }
 
 // Case is one generated repository plus one plz invocation.
@@ -39,6 +40,32 @@ type Case struct {
 	// Warm: the repository is first built completely WITHOUT the failures and touches; the observed invocation is the
 	// second one, on the same plz-out (unchanged targets are not re-run; stale outputs of failed dependents remain).
 	Warm bool
+	// Subs: {package, target}: the BUILD file of the package starts with subinclude(<label of the target>); the target
+	// lives in another package (which has no subinclude of its own). Parsing the package waits for the target to be built.
+	Subs [][2]int
+	// Query: the invocation is `plz query deps <roots>` instead of `plz build`: NeedBuild is off, so the graph is only
+	// activated; what gets built is what the parsed packages subinclude (forceBuild), with its dependencies.
+	Query bool
+}
+
+// SubsOf returns the targets package pkg subincludes.
+func (c *Case) SubsOf(pkg int) []int {
+	var out []int
+	for _, s := range c.Subs {
+		if s[0] == pkg {
+			out = append(out, s[1])
+		}
+	}
+	return out
+}
+
+func (c *Case) isSubTarget(i int) bool {
+	for _, s := range c.Subs {
+		if s[1] == i {
+			return true
+		}
+	}
+	return false
 }
 
 func (c *Case) Label(i int) string { return fmt.Sprintf("//p%d:t%d", c.Targets[i].Pkg, i) }
@@ -116,8 +143,28 @@ func (c *Case) Encode() string {
 	if c.Warm {
 		warm = 1
 	}
-	return fmt.Sprintf("deps=%s pk=%s roots=%s n=%d kg=%d fail=%s bad=%s miss=%s prov=%s req=%s late=%s sleep=%s warm=%d touch=%s", strings.Join(d, ";"), strings.Join(pk, ","),
+	out := fmt.Sprintf("deps=%s pk=%s roots=%s n=%d kg=%d fail=%s bad=%s miss=%s prov=%s req=%s late=%s sleep=%s warm=%d touch=%s", strings.Join(d, ";"), strings.Join(pk, ","),
 		ints(c.Roots), c.Par, kg, f, ints(c.BadPkg), ints(c.MissPkg), dash(prov), dash(req), dash(late), ints(sl), warm, ints(touch))
+	var big []int
+	for i, t := range c.Targets {
+		if t.BigOut {
+			big = append(big, i)
+		}
+	}
+	if len(big) > 0 {
+		out += " big=" + ints(big)
+	}
+	if c.Query {
+		out += " q=1"
+	}
+	if len(c.Subs) > 0 {
+		var sb []string
+		for _, x := range c.Subs {
+			sb = append(sb, fmt.Sprintf("%d:%d", x[0], x[1]))
+		}
+		out += " sub=" + strings.Join(sb, ",")
+	}
+	return out
 }
 
 // Decode parses what Encode wrote.
@@ -266,6 +313,38 @@ func Decode(s string) (*Case, bool) {
 			c.Targets[i].PostAdd = append(c.Targets[i].PostAdd, [2]int{tx[0], tx[1]})
 		}
 	}
+	c.Query = kv["q"] == "1"
+	if v := kv["big"]; v != "" && v != "-" {
+		bs, ok := ints(v)
+		if !ok {
+			return nil, false
+		}
+		for _, i := range bs {
+			if i >= len(c.Targets) {
+				return nil, false
+			}
+			c.Targets[i].BigOut = true
+		}
+	}
+	if v := kv["sub"]; v != "" && v != "-" {
+		for _, e := range strings.Split(v, ",") {
+			p := strings.SplitN(e, ":", 2)
+			if len(p) != 2 {
+				return nil, false
+			}
+			pkg, err1 := strconv.Atoi(p[0])
+			t, err2 := strconv.Atoi(p[1])
+			if err1 != nil || err2 != nil || pkg < 0 || t < 0 || t >= len(c.Targets) || c.Targets[t].Pkg == pkg {
+				return nil, false
+			}
+			c.Subs = append(c.Subs, [2]int{pkg, t})
+		}
+		for _, x := range c.Subs {
+			if len(c.SubsOf(c.Targets[x[1]].Pkg)) > 0 {
+				return nil, false // one level only
+			}
+		}
+	}
 	return c, true
 }
 
@@ -388,6 +467,9 @@ func (c *Case) WritePhase(dir string, phase int) (repo, log string, err error) {
 		if intsIn(c.BadPkg, pkg) {
 			b.WriteString("genrule(name = \n") // syntax error
 		}
+		for _, u := range c.SubsOf(pkg) {
+			fmt.Fprintf(&b, "subinclude(%q)\n", c.Label(u))
+		}
 		for _, i := range is {
 			t := c.Targets[i]
 			srcs := make([]string, 0, len(t.Deps)+1)
@@ -416,7 +498,7 @@ func (c *Case) WritePhase(dir string, phase int) (repo, log string, err error) {
 			if len(t.PostAdd) > 0 {
 				fmt.Fprintf(&b, "def _pb%d(name, output):\n", i)
 				for _, pa := range t.PostAdd {
-					fmt.Fprintf(&b, "    add_dep(%q, %q)\n", fmt.Sprintf("t%d", pa[0]), fmt.Sprintf(":t%d", pa[1]))
+					fmt.Fprintf(&b, "    add_dep(%q, %q)\n", fmt.Sprintf("t%d", pa[0]), c.Label(pa[1]))
 				}
 				extra += fmt.Sprintf(", post_build=_pb%d", i)
 			}
@@ -435,7 +517,13 @@ func (c *Case) WritePhase(dir string, phase int) (repo, log string, err error) {
 			if t.Touch && !first {
 				content += "-v2"
 			}
-			cmd += "; (cat $SRCS 2>/dev/null; echo " + content + ") > $OUT; " + ev("E", i)
+			if c.isSubTarget(i) {
+				cmd += "; echo '# " + content + "' > $OUT; " + ev("E", i) // the output is read as a build definition file
+			} else if t.BigOut && first {
+				cmd += "; mkdir $OUT && (cd $OUT && seq 1 40000 | xargs touch); " + ev("E", i)
+			} else {
+				cmd += "; (cat $SRCS 2>/dev/null; echo " + content + ") > $OUT; " + ev("E", i)
+			}
 			fmt.Fprintf(&b, "genrule(name=%q, srcs=[%s], outs=[%q], cmd=%q, visibility=[\"PUBLIC\"]%s)\n",
 				fmt.Sprintf("t%d", i), strings.Join(srcs, ", "), fmt.Sprintf("t%d.out", i), cmd, extra)
 		}
@@ -481,6 +569,9 @@ func (c *Case) Run(plz, scratch string, id int, limit time.Duration) (*Result, e
 		}
 	}
 	args := []string{"build", "-p", "-v", "error", "--noupdate", "-n", strconv.Itoa(c.Par)}
+	if c.Query {
+		args = []string{"query", "deps", "-p", "-v", "error", "--noupdate", "-n", strconv.Itoa(c.Par)}
+	}
 	if c.KeepGoing {
 		args = append(args, "--keep_going")
 	}
@@ -557,8 +648,45 @@ func (c *Case) Run(plz, scratch string, id int, limit time.Duration) (*Result, e
 	return res, nil
 }
 
-// Needed returns the targets reachable from the roots (the ones a successful build must build).
+// Needed returns the targets reachable from the roots (the ones a successful build must build). For a query: what
+// the packages of those targets subinclude, with its dependencies (and what their packages subinclude).
 func (c *Case) Needed() map[int]bool {
+	if c.Query {
+		parsed := map[int]bool{}
+		var walk func(i int)
+		walk = func(i int) {
+			if parsed[i] {
+				return
+			}
+			parsed[i] = true
+			for _, d := range c.EffDeps(i) {
+				walk(d)
+			}
+		}
+		for _, r := range c.Roots {
+			walk(r)
+		}
+		forced := map[int]bool{}
+		var force func(i int)
+		force = func(i int) {
+			if forced[i] {
+				return
+			}
+			forced[i] = true
+			for _, d := range c.EffDeps(i) {
+				force(d)
+			}
+			for _, u := range c.SubsOf(c.Targets[i].Pkg) {
+				force(u)
+			}
+		}
+		for i := range parsed {
+			for _, u := range c.SubsOf(c.Targets[i].Pkg) {
+				force(u)
+			}
+		}
+		return forced
+	}
 	seen := map[int]bool{}
 	var visit func(i int)
 	visit = func(i int) {
@@ -568,6 +696,9 @@ func (c *Case) Needed() map[int]bool {
 		seen[i] = true
 		for _, d := range c.EffDeps(i) {
 			visit(d)
+		}
+		for _, u := range c.SubsOf(c.Targets[i].Pkg) {
+			visit(u) // parsing the target's package builds what it subincludes
 		}
 	}
 	for _, r := range c.Roots {
@@ -629,6 +760,11 @@ func (c *Case) CheckLog(ev []Event) []Violation {
 				}
 				flagged = true
 				v = append(v, Violation{cls, fmt.Sprintf("target %d started at event %d, dependency %d had not finished successfully", e.T, pos, d)})
+			}
+			for _, u := range c.SubsOf(c.Targets[e.T].Pkg) {
+				if !ended[u] {
+					v = append(v, Violation{"started-before-subinclude-built", fmt.Sprintf("target %d started at event %d, but its package subincludes target %d, which had not been built", e.T, pos, u)})
+				}
 			}
 			if x := failedBelow(e.T, map[int]bool{}); x >= 0 && !flagged {
 				v = append(v, Violation{"started-after-dependency-failed", fmt.Sprintf("target %d started at event %d although its (transitive) dependency %d had failed", e.T, pos, x)})
